@@ -89,6 +89,12 @@ fn locations_case(unit: u64, k: u64, ctx: &mut Ctx) {
                 p.files[fi].1 = t;
                 ctx.feature("file_with_error_at_eof");
             }
+            2 => {
+                // an error whose range runs over several lines (an unterminated code fragment up to the end of the file)
+                let t = format!("{}\ndef Tail{} {{ code c = [{{ never\n  closed \u{e9}\n", p.files[fi].1.trim_end_matches(' '), fi);
+                p.files[fi].1 = t;
+                ctx.feature("file_with_multi_line_diagnostic");
+            }
             _ => {}
         }
     }
@@ -505,6 +511,9 @@ struct Action {
     reopen: bool,
     /// the editor sends exactly the text the file has on disk (an undo back to the saved state)
     revert: bool,
+    /// no message at all: the document, which is not open, is replaced on disk by another text of the same length
+    /// and keeps its modification time
+    disk_swap: bool,
     /// replay: the recorded text, verbatim
     fixed_text: Option<String>,
 }
@@ -544,6 +553,18 @@ fn run_session(mode: LMode, docs: &[&str], actions: &[Action], check_every_step:
     let case_json = |history: &Vec<Value>| json!({"kind": "lsp_session", "docs": docs, "history": history, "check_every_step": check_every_step, "unsaved": unsaved});
     let mut watchdog = false;
     for (step, act) in actions.iter().enumerate() {
+        if act.disk_swap {
+            if buffers[act.doc].is_none() && !unsaved.contains(&act.doc) {
+                let swapped = if disk[act.doc].contains("_disk_") { disk[act.doc].replace("_disk_", "_dskB_") } else { disk[act.doc].replace("_dskB_", "_disk_") };
+                if swapped.len() == disk[act.doc].len() && swapped != disk[act.doc] {
+                    disk[act.doc] = swapped.clone();
+                    s.write_disk_keep_mtime(docs[act.doc], &swapped);
+                    history.push(json!({"action": "disk-rewrite-same-length-same-mtime", "doc": docs[act.doc], "text": swapped}));
+                    ctx.feature("action:disk-rewrite-same-length-same-mtime");
+                }
+            }
+            continue;
+        }
         versions[act.doc] += 1;
         let text = match (&buffers[act.doc], act.resend, act.reflow) {
             _ if act.fixed_text.is_some() => act.fixed_text.clone().unwrap(),
@@ -727,10 +748,10 @@ fn action_pool(n_docs: usize) -> Vec<Action> {
     for doc in 0..n_docs {
         for include_next in [false, true] {
             for faulty in [false, true] {
-                v.push(Action { doc, include_next, faulty, resend: false, reflow: false, reopen: false, revert: false, fixed_text: None });
+                v.push(Action { doc, include_next, faulty, resend: false, reflow: false, reopen: false, revert: false, disk_swap: false, fixed_text: None });
             }
         }
-        v.push(Action { doc, include_next: false, faulty: true, resend: true, reflow: false, reopen: false, revert: false, fixed_text: None });
+        v.push(Action { doc, include_next: false, faulty: true, resend: true, reflow: false, reopen: false, revert: false, disk_swap: false, fixed_text: None });
     }
     v
 }
@@ -738,9 +759,9 @@ fn action_pool(n_docs: usize) -> Vec<Action> {
 fn action_pool_wide(n_docs: usize) -> Vec<Action> {
     let mut v = action_pool(n_docs);
     for doc in 0..n_docs {
-        v.push(Action { doc, include_next: false, faulty: true, resend: false, reflow: true, reopen: false, revert: false, fixed_text: None });
-        v.push(Action { doc, include_next: doc + 1 < n_docs, faulty: true, resend: false, reflow: false, reopen: true, revert: false, fixed_text: None });
-        v.push(Action { doc, include_next: doc + 1 < n_docs, faulty: true, resend: false, reflow: false, reopen: false, revert: true, fixed_text: None });
+        v.push(Action { doc, include_next: false, faulty: true, resend: false, reflow: true, reopen: false, revert: false, disk_swap: false, fixed_text: None });
+        v.push(Action { doc, include_next: doc + 1 < n_docs, faulty: true, resend: false, reflow: false, reopen: true, revert: false, disk_swap: false, fixed_text: None });
+        v.push(Action { doc, include_next: doc + 1 < n_docs, faulty: true, resend: false, reflow: false, reopen: false, revert: true, disk_swap: false, fixed_text: None });
     }
     v
 }
@@ -816,7 +837,7 @@ impl Check for LspCheck {
                 {
                     let d = (unit % 3) as usize;
                     let j = 1 + ((unit / 3) % 3) as usize;
-                    let new = |doc: usize, inc: bool, faulty: bool| Action { doc, include_next: inc, faulty, resend: false, reflow: false, reopen: false, revert: false, fixed_text: None };
+                    let new = |doc: usize, inc: bool, faulty: bool| Action { doc, include_next: inc, faulty, resend: false, reflow: false, reopen: false, revert: false, disk_swap: false, fixed_text: None };
                     let mut acts = vec![new(d, d < 2, true)];
                     for i in 0..j {
                         acts.push(new(d, d < 2, i % 2 == 0));
@@ -861,6 +882,12 @@ impl Check for LspCheck {
                     let acts = vec![new(inc - 1, true, false), new(inc, false, true), empty.clone(), new(inc - 1, true, j % 2 == 0), new(inc, false, true), empty, new(inc - 1, true, false)];
                     ctx.feature("directed_emptied_document_sessions");
                     run_session(mode, docs, &acts, true, ctx, false, &[]);
+                    // a file that is not open is replaced on disk by a text of the same length with its old modification
+                    // time, then its includer is touched
+                    let swap_disk = Action { disk_swap: true, ..new(inc, false, false) };
+                    let acts = vec![new(inc - 1, true, false), swap_disk.clone(), new(inc - 1, true, j % 2 == 0), swap_disk, new(inc - 1, true, false)];
+                    ctx.feature("directed_disk_rewrite_sessions");
+                    run_session(mode, docs, &acts, true, ctx, false, &[]);
                 }
                 // random longer histories over three documents (chain a -> b -> c)
                 let pool3 = action_pool_wide(3);
@@ -894,7 +921,7 @@ impl Check for LspCheck {
                         .filter_map(|h| {
                             let d = docs.iter().position(|x| Some(x.as_str()) == h["doc"].as_str())?;
                             let t = h["text"].as_str()?;
-                            Some(Action { doc: d, include_next: t.contains("include "), faulty: t.contains(": U_"), resend: false, reflow: false, reopen: h["action"].as_str() == Some("didClose+didOpen"), revert: false, fixed_text: Some(t.to_string()) })
+                            Some(Action { doc: d, include_next: t.contains("include "), faulty: t.contains(": U_"), resend: false, reflow: false, reopen: h["action"].as_str() == Some("didClose+didOpen"), revert: false, disk_swap: false, fixed_text: Some(t.to_string()) })
                         })
                         .collect()
                 })
@@ -916,7 +943,7 @@ impl Check for LspCheck {
         match self.mode {
             LMode::Locations => {
                 let n = tier.pick(300, 8000);
-                vec![("workspaces", n), ("definition_cross_file", n), ("definition_same_file", n), ("references_requests", n * 10), ("non_ascii", n / 4), ("crlf", n / 10), ("mixed_line_terminators", n / 10), ("diagnostics_in_included_file", n / 20), ("documentLink_nonempty", n / 2), ("inlayHint_nonempty", n / 2)]
+                vec![("workspaces", n), ("definition_cross_file", n), ("definition_same_file", n), ("references_requests", n * 10), ("non_ascii", n / 4), ("crlf", n / 10), ("mixed_line_terminators", n / 10), ("file_with_multi_line_diagnostic", n / 10), ("diagnostics_in_included_file", n / 20), ("documentLink_nonempty", n / 2), ("inlayHint_nonempty", n / 2)]
             }
             _ => {
                 let mut v = vec![("exhaustive_sessions", tier.pick(400, 2500)), ("random_sessions", tier.pick(150, 8000)), ("sessions_burst", 100), ("quiescent_points", tier.pick(1000, 20_000)), ("action:with-include", 500), ("action:resend-same-text", 200), ("action:reflow-same-byte-offsets", tier.pick(25, 500)), ("action:reopen-restarts-versions", tier.pick(25, 500)), ("sessions_with_percent_encoded_names", tier.pick(60, 1500)), ("sessions_with_unsaved_document", tier.pick(60, 1500)), ("directed_reopen_sessions", tier.pick(90, 600))];
